@@ -1,4 +1,5 @@
 import ArrowModel.C09.Physical
+import ArrowModel.Generated.C09
 /-
 C09 algorithm model: `ArrayData::try_new` / `ArrayDataBuilder::build` / `validate` /
 `validate_nulls` / `validate_values` / `validate_data` / `validate_full` of
@@ -60,6 +61,7 @@ def layout : DType → List BufSpec × Bool
   | .bool => ([.bitmap], true)
   | .prim w => ([.fixed w], true)
   | .fsb n => ([.fixed n], true)
+  | .view _ => ([.fixed 16], true)                  -- `new_view()`: variadic
   | .utf8 l | .binary l => ([.fixed (offW l), .var], true)
   | .list l _ _ => ([.fixed (offW l)], true)
   | .fsl _ _ _ => ([], true)
@@ -67,6 +69,11 @@ def layout : DType → List BufSpec × Bool
   | .ree _ _ => ([], false)
   | .union dense _ => (if dense then [.fixed 1, .fixed 4] else [.fixed 1], false)
   | .dict kw _ _ => ([.fixed kw], true)
+
+/-- `DataTypeLayout::variadic` (extra data buffers are legal) -/
+def variadic : DType → Bool
+  | .view _ => true
+  | _ => false
 
 /-- the `for (buffer, spec) in buffers.zip(layout.buffers)` loop of `validate` -/
 def buffersOk (lpo : Nat) : List BufSpec → List (List Nat) → Bool
@@ -83,7 +90,7 @@ def validateHead (d : ArrayData) : Res :=
   | some lpo =>
     let (specs, canNull) := layout d.type
     if !canNull && d.nulls.isSome then .err
-    else if d.buffers.length != specs.length then .err
+    else if d.buffers.length < specs.length || (!variadic d.type && d.buffers.length != specs.length) then .err
     else if !buffersOk lpo specs d.buffers then .err
     else match d.nulls with
       | none => .ok
@@ -317,6 +324,15 @@ def validateValues (d : ArrayData) : Res :=
     match d.buffers with
     | [offs, data] => eachOffset d offs large data.length (fun _ _ => true)
     | _ => .err
+  | .view utf8 =>
+    -- `typed_buffer::<u128>(0, len)` then `validate_view_impl` over every slot of the window
+    match d.buffers with
+    | views :: datas =>
+      if !typedBufferOk d views d.len 16 then .err
+      else if views.length % 16 != 0 then .panic
+      else errIf (!allBelow d.len (fun i =>
+        viewSlotOkN ArrowModel.Generated.C09.MAX_INLINE_VIEW_LEN views datas utf8 (d.offset + i)))
+    | [] => .err
   | .list large _ _ =>
     match d.buffers, d.children with
     | offs :: _, c :: _ => eachOffset d offs large c.len (fun _ _ => true)
@@ -410,6 +426,7 @@ def alignOf (t : DType) (idx : Nat) : Option Nat :=
   | some (.fixed w) =>
     match t with
     | .fsb _ => some 1
+    | .view _ => some 16
     | .prim 32 => some 16    -- i256 is `repr(C)` {u128, i128}
     | _ => some w
   | _ => none
@@ -649,6 +666,16 @@ def typedUnion (d : ArrayData) (dense : Bool) (fields : Fields) : Res :=
     else .ok
   | [] => .panic
 
+/-- `GenericByteViewArray::<T>::try_new(ScalarBuffer::<u128>::from(views), buffers, nulls)` -/
+def typedView (d : ArrayData) (utf8 : Bool) : Res :=
+  match d.buffers with
+  | views :: datas =>
+    (typedNullsOk d).andThen fun _ =>
+    (errIf (!allBelow (views.length / 16) (fun i =>
+      viewSlotOkN ArrowModel.Generated.C09.MAX_INLINE_VIEW_LEN views datas utf8 i))).andThen fun _ =>
+    errIf (d.nulls.isSome && d.len != views.length / 16)
+  | [] => .panic
+
 /-- length a typed constructor derives from its components (`none`: taken from the layout) -/
 def typedLen (kind : String) (d : ArrayData) : Option Nat :=
   match kind, d.type with
@@ -658,6 +685,7 @@ def typedLen (kind : String) (d : ArrayData) : Option Nat :=
     if k = 0 then some (if d.nulls.isSome then d.len else 0) else d.children.head?.map (fun c => c.len / k)
   | "dict", .dict kw _ _ => d.buffers.head?.map (fun b => b.length / kw)
   | "union", _ => d.buffers.head?.map (·.length)
+  | "view", .view _ => d.buffers.head?.map (fun b => b.length / 16)
   | _, _ => none
 
 /-- dispatch on the harness `kind` -/
@@ -672,6 +700,7 @@ def typedModel (kind : String) (d : ArrayData) : Res :=
   | "dict", .dict kw s _ => typedDict d kw s
   | "run", .ree rw _ => typedRun d rw
   | "union", .union dense fs => typedUnion d dense fs
+  | "view", .view u => typedView d u
   | _, _ => .err
 
 end ArrowModel.C09
